@@ -148,7 +148,20 @@ def reset(q, global_size=None):
     q.reset_correlations()
     q.clear_unit_definitions()
     if global_size is not None:
-        q.set_monte_carlo_sample_size(global_size)
+        set_global(q, global_size)
+
+
+def global_route(n):
+    """both routes to the global sample size are used: the function and the settings attribute
+    (chosen by the parity of the size, so that a replay takes the same route)"""
+    return "attribute" if int(n) % 2 else "function"
+
+
+def set_global(q, n):
+    if global_route(n) == "attribute":
+        q.get_settings().monte_carlo_sample_size = n
+    else:
+        q.set_monte_carlo_sample_size(n)
 
 
 def seed_numpy(rng):
